@@ -378,18 +378,18 @@ class Grammar:
                 for k in self.alternatives[c]:
                     add(k)
             elif is_dataclass(c):
-                for _, k in get_arguments(c):
-                    if is_metahandler(k):
-                        k = get_generic_parameter(k)
-                        add(k)
-                    elif is_generic_list(k):
-                        k = get_generic_parameter(k)
-                        add(k)
+
+                def add_type(k):
+                    if is_metahandler(k) or is_generic_list(k):
+                        add_type(get_generic_parameter(k))
                     elif is_generic(k):
                         for v in get_generic_parameters(k):
-                            add(v)
+                            add_type(v)
                     else:
                         add(k)
+
+                for _, k in get_arguments(c):
+                    add_type(k)
             elif c in [bool, int, str, float, list, tuple]:
                 pass
             else:
